@@ -97,14 +97,19 @@ theorem startLoop_mem (i : Nat) (bs : List Blk) (k : Nat) :
 
 /-! ### `_run_tasks` -/
 
-theorem atCancel_k (l : Nat) (j : Job) : (Job.atCancel l j).k = j.k := by
+theorem cancelEnd_k (l T : Nat) (j : Job) : (Job.cancelEnd l T j).k = j.k := by
+  unfold Job.cancelEnd; split <;> rfl
+
+theorem atCancel_k (l T : Nat) (j : Job) : (Job.atCancel l T j).k = j.k := by
   unfold Job.atCancel; split
-  · split <;> rfl
-  · rfl
+  · split
+    · rfl
+    · exact cancelEnd_k ..
+  · exact cancelEnd_k ..
 
 /-- every job gets exactly one fate -/
-theorem awaitJobs_ks (limit : Option Nat) (now : Nat) (js : List Job) :
-    (awaitJobs limit now js).1.map (·.k) = js.map (·.k) := by
+theorem awaitJobs_ks (limit : Option Nat) (T now : Nat) (js : List Job) :
+    (awaitJobs limit T now js).1.map (·.k) = js.map (·.k) := by
   induction js generalizing now with
   | nil => simp [awaitJobs]
   | cons j js ih =>
@@ -132,9 +137,9 @@ theorem wake_le (j : Job) (now M : Nat) (hnow : now ≤ M) (hj : j.timeout ≤ M
     · simp; omega
 
 /-- without a cancellation the loop and every task end within the longest time-out -/
-theorem awaitJobs_bound (M : Nat) (now : Nat) (js : List Job) (hnow : now ≤ M)
+theorem awaitJobs_bound (M T : Nat) (now : Nat) (js : List Job) (hnow : now ≤ M)
     (h : ∀ j ∈ js, j.timeout ≤ M) :
-    (awaitJobs none now js).2.1 ≤ M ∧ ∀ e ∈ (awaitJobs none now js).1, e.time ≤ M := by
+    (awaitJobs none T now js).2.1 ≤ M ∧ ∀ e ∈ (awaitJobs none T now js).1, e.time ≤ M := by
   induction js generalizing now with
   | nil => simp [awaitJobs, hnow]
   | cons j js ih =>
@@ -232,7 +237,7 @@ def seg2 : List Ev := (oa.filter (outaDelivers bs inited)).map (Ev.out · true)
 def seg3 : List Ev := oa.flatMap fun k =>
     if immediate bs failed inited k then [Ev.sab k, Ev.sae k (stopJob bs failed inited k).fin]
     else [Ev.sab k]
-def ends : List JobEnd := (awaitJobs none 0 (sortJobs (oa.map (stopJob bs failed inited)))).1
+def ends : List JobEnd := (runTasks none (oa.map (stopJob bs failed inited))).1
 def seg4 : List Ev :=
   (sortEnds ((ends bs failed inited oa).filter fun e => !immediate bs failed inited e.k)).map
     fun e => Ev.sae e.k (seenRes bs e)
@@ -280,7 +285,7 @@ theorem seg4_evs : stops (seg4 bs failed inited oa) = [] ∧ starteds (seg4 bs f
   have h2 : ((ends bs failed inited oa).filter fun e => !immediate bs failed inited e.k).map (·.k) =
       ((ends bs failed inited oa).map (·.k)).filter fun k => !immediate bs failed inited k := by
     rw [List.filter_map]; rfl
-  rw [h2, ends, awaitJobs_ks]
+  rw [h2, ends, runTasks, awaitJobs_ks]
   refine ((sortJobs_perm _).map _).filter _ |>.trans ?_
   simp [List.map_map, Function.comp_def, stopJob_k]
 
@@ -317,9 +322,9 @@ theorem stopSblocks_saes :
 theorem stopSblocks_dur (M : Nat) (h : ∀ k ∈ oa, (blk bs k).stopTimeout ≤ M) :
     (stopSblocks bs failed inited started timers0 oa os).dur ≤ M := by
   have : (stopSblocks bs failed inited started timers0 oa os).dur =
-      (awaitJobs none 0 (sortJobs (oa.map (stopJob bs failed inited)))).2.1 := rfl
+      (runTasks none (oa.map (stopJob bs failed inited))).2.1 := rfl
   rw [this]
-  refine (awaitJobs_bound M 0 _ (Nat.zero_le _) ?_).1
+  refine (awaitJobs_bound M _ 0 _ (Nat.zero_le _) ?_).1
   intro j hj
   rw [(sortJobs_perm _).mem_iff] at hj
   obtain ⟨k, hk, rfl⟩ := List.mem_map.1 hj
